@@ -59,6 +59,9 @@ type modelState struct {
 	renderModel    map[string]interface{}
 	fpSeq          int
 	forkSeq        int
+	pureMemo       map[*ssa.BasicBlock]bool
+	IfConverted    int
+	NoIfConv       bool
 }
 
 func (ex *Exec) modelReset() {
